@@ -214,6 +214,10 @@ func run(root, id, tier string) int {
 			logf := filepath.Join(scratch, fmt.Sprintf("shard-%d.log", i))
 			lf, _ := os.Create(logf)
 			cmd := exec.Command(bin, "-test.run", "^TestProp$", "-test.timeout", "0")
+			if !cfg.race {
+				// address-space limit: a runaway case must not take the machine down
+				cmd = exec.Command("/bin/sh", "-c", fmt.Sprintf("ulimit -v %d; exec \"$0\" \"$@\"", (mem+2048)*1024*2), bin, "-test.run", "^TestProp$", "-test.timeout", "0")
+			}
 			cmd.Dir = pkgDir
 			cmd.Stdout, cmd.Stderr = lf, lf
 			cmd.Env = append(goEnv(),
